@@ -27,6 +27,12 @@ structure interval_IntervalListIntersectionState where
   result : List interval_Interval
 deriving DecidableEq, Repr
 
+structure rules_WeekMonth where
+  WeekIndex : Int
+  WeekDay : Int
+  Month : Int
+deriving DecidableEq, Repr
+
 def julian_monthLen : List Int := [31, 28, 31, 30, 31, 30, 31, 31, 30, 31, 30, 31]
 def julian_monthLenSum : List Int := [0, 31, 59, 90, 120, 151, 181, 212, 243, 273, 304, 334, 365]
 def jalali_monthLen : List Int := [31, 31, 31, 31, 31, 31, 30, 30, 30, 30, 30, 30]
@@ -245,9 +251,41 @@ def interval_Humanize (list : (List interval_Interval)) : Option (List interval_
       | GoSem.Flow.next newList =>
         pure newList
 
--- NOT TRANSLATED: interval_Extract (interval/interval.go:350): call of github.com/ilius/libgostarcal/interval.IntervalList.Count (not in the list of translated functions)
+/-- interval/interval.go:337 -/
+def interval_Extract (list : (List interval_Interval)) : Option (List Int) := do
+  let count := (0 : Int)
+  let _r1 ← GoSem.forFold (ρ := Empty) (fun count _i interval => do
+      let count := (count + ((interval).End - (interval).Start))
+      if (interval).ClosedEnd then
+        let count := (count + 1)
+        pure (GoSem.Flow.next count)
+      else
+        pure (GoSem.Flow.next count)
+    ) list 0 count
+  match _r1 with
+  | GoSem.Flow.ret _v => nomatch _v
+  | GoSem.Flow.next count =>
+    let extList ← (GoSem.mkCap (α := Int) count)
+    let _r3 ← GoSem.forFold (ρ := Empty) (fun extList _i interval_1 => do
+        let _r2 ← GoSem.forCount (ρ := Empty) (fun extList pos => do
+            let extList := (extList ++ [pos])
+            pure (GoSem.Flow.next extList)
+          ) (interval_1).Start (interval_1).End extList
+        match _r2 with
+        | GoSem.Flow.ret _v => nomatch _v
+        | GoSem.Flow.next extList =>
+          if (interval_1).ClosedEnd then
+            let extList := (extList ++ [(interval_1).End])
+            pure (GoSem.Flow.next extList)
+          else
+            pure (GoSem.Flow.next extList)
+      ) list 0 extList
+    match _r3 with
+    | GoSem.Flow.ret _v => nomatch _v
+    | GoSem.Flow.next extList =>
+      pure extList
 
-/-- interval/interval.go:469 -/
+/-- interval/interval.go:463 -/
 def interval_IntervalListByNumList (nums : (List Int)) (minCount : Int) : Option (List interval_Interval) := do
   let list ← (GoSem.mkCap (α := interval_Interval) ((nums).length : Int))
   let tmpNums ← (GoSem.mkCap (α := Int) ((nums).length : Int))
@@ -299,7 +337,7 @@ def interval_IntervalListByNumList (nums : (List Int)) (minCount : Int) : Option
       )
     pure list
 
-/-- interval/interval.go:374 -/
+/-- interval/interval.go:368 -/
 def interval_intersectionOfSomeIntervalLists_endPoint (state : interval_IntervalListIntersectionState) (point : interval_IntervalPoint) : Option (Bool × interval_IntervalListIntersectionState) := do
   let state := { state with hasNil := false }
   let state := { state with start := (-9223372036854775808) }
@@ -337,7 +375,7 @@ def interval_intersectionOfSomeIntervalLists_endPoint (state : interval_Interval
       let state := { state with openStartList := (← GoSem.setA (state).openStartList (point).ListId (-9223372036854775808)) }
       pure (false, state)
 
-/-- interval/interval.go:412 -/
+/-- interval/interval.go:406 -/
 def interval_IntersectionOfSomeIntervalLists (lists : (List (List interval_Interval))) : Option (Option (List interval_Interval)) := do
   let err := false
   let listCount := ((lists).length : Int)
@@ -391,9 +429,13 @@ def interval_IntersectionOfSomeIntervalLists (lists : (List (List interval_Inter
         | GoSem.Flow.next state =>
           pure (some (state).result)
 
-/-- interval/interval.go:363 -/
+/-- interval/interval.go:357 -/
 def interval_Intersection (list : (List interval_Interval)) (list2 : (List interval_Interval)) : Option (Option (List interval_Interval)) := do
   (interval_IntersectionOfSomeIntervalLists [list, list2])
+
+/-- event/rules_lib/18_weekMonth.go:46 -/
+def rules_WeekMonth_IsValid (wm : rules_WeekMonth) : Option Bool := do
+  pure ((((((decide ((wm).Month ≥ 0)) && (decide ((wm).Month ≤ 12))) && (decide ((wm).WeekIndex ≥ 0))) && (decide ((wm).WeekIndex ≤ 4))) && (decide ((wm).WeekDay ≥ 0))) && (decide ((wm).WeekDay ≤ 6)))
 
 /-- cal_types/julian/julian.go:114 -/
 def julian_IsLeap (year : Int) : Option Bool := do
@@ -990,7 +1032,41 @@ def interval_Humanize_chk (list : (List interval_Interval)) : Option (List inter
       | GoSem.Flow.next newList =>
         pure newList
 
-/-- interval/interval.go:469 -/
+/-- interval/interval.go:337 -/
+def interval_Extract_chk (list : (List interval_Interval)) : Option (List Int) := do
+  let count := (0 : Int)
+  let _r1 ← GoSem.forFold (ρ := Empty) (fun count _i interval => do
+      let count ← (GoSem.chk64 (count + (← (GoSem.chk64 ((interval).End - (interval).Start)))))
+      if (interval).ClosedEnd then
+        let count ← (GoSem.chk64 (count + 1))
+        pure (GoSem.Flow.next count)
+      else
+        pure (GoSem.Flow.next count)
+    ) list 0 count
+  match _r1 with
+  | GoSem.Flow.ret _v => nomatch _v
+  | GoSem.Flow.next count =>
+    let extList ← (GoSem.mkCap (α := Int) count)
+    let _r3 ← GoSem.forFold (ρ := Empty) (fun extList _i interval_1 => do
+        let _r2 ← GoSem.forCount (ρ := Empty) (fun extList pos => do
+            let extList := (extList ++ [pos])
+            pure (GoSem.Flow.next extList)
+          ) (interval_1).Start (interval_1).End extList
+        match _r2 with
+        | GoSem.Flow.ret _v => nomatch _v
+        | GoSem.Flow.next extList =>
+          if (interval_1).ClosedEnd then
+            let extList := (extList ++ [(interval_1).End])
+            pure (GoSem.Flow.next extList)
+          else
+            pure (GoSem.Flow.next extList)
+      ) list 0 extList
+    match _r3 with
+    | GoSem.Flow.ret _v => nomatch _v
+    | GoSem.Flow.next extList =>
+      pure extList
+
+/-- interval/interval.go:463 -/
 def interval_IntervalListByNumList_chk (nums : (List Int)) (minCount : Int) : Option (List interval_Interval) := do
   let list ← (GoSem.mkCap (α := interval_Interval) ((nums).length : Int))
   let tmpNums ← (GoSem.mkCap (α := Int) ((nums).length : Int))
@@ -1042,7 +1118,7 @@ def interval_IntervalListByNumList_chk (nums : (List Int)) (minCount : Int) : Op
       )
     pure list
 
-/-- interval/interval.go:374 -/
+/-- interval/interval.go:368 -/
 def interval_intersectionOfSomeIntervalLists_endPoint_chk (state : interval_IntervalListIntersectionState) (point : interval_IntervalPoint) : Option (Bool × interval_IntervalListIntersectionState) := do
   let state := { state with hasNil := false }
   let state := { state with start := (-9223372036854775808) }
@@ -1080,7 +1156,7 @@ def interval_intersectionOfSomeIntervalLists_endPoint_chk (state : interval_Inte
       let state := { state with openStartList := (← GoSem.setA (state).openStartList (point).ListId (-9223372036854775808)) }
       pure (false, state)
 
-/-- interval/interval.go:412 -/
+/-- interval/interval.go:406 -/
 def interval_IntersectionOfSomeIntervalLists_chk (lists : (List (List interval_Interval))) : Option (Option (List interval_Interval)) := do
   let err := false
   let listCount := ((lists).length : Int)
@@ -1134,9 +1210,13 @@ def interval_IntersectionOfSomeIntervalLists_chk (lists : (List (List interval_I
         | GoSem.Flow.next state =>
           pure (some (state).result)
 
-/-- interval/interval.go:363 -/
+/-- interval/interval.go:357 -/
 def interval_Intersection_chk (list : (List interval_Interval)) (list2 : (List interval_Interval)) : Option (Option (List interval_Interval)) := do
   (interval_IntersectionOfSomeIntervalLists_chk [list, list2])
+
+/-- event/rules_lib/18_weekMonth.go:46 -/
+def rules_WeekMonth_IsValid_chk (wm : rules_WeekMonth) : Option Bool := do
+  pure ((((((decide ((wm).Month ≥ 0)) && (decide ((wm).Month ≤ 12))) && (decide ((wm).WeekIndex ≥ 0))) && (decide ((wm).WeekIndex ≤ 4))) && (decide ((wm).WeekDay ≥ 0))) && (decide ((wm).WeekDay ≤ 6)))
 
 /-- cal_types/julian/julian.go:114 -/
 def julian_IsLeap_chk (year : Int) : Option Bool := do
@@ -1520,6 +1600,6 @@ def hijri_GetMonthLen_chk (year : Int) (month : Int) : Option Int := do
       pure 29
 
 /-- the functions translated on this run -/
-def translated : List String := ["utils_Mod", "utils_Div", "utils_Divmod", "utils_IntMin", "utils_GetHmsBySeconds", "utils_MonthListIsValid", "utils_DayListIsValid", "utils_WeekDayListIsValid", "lib_GetTotalSeconds", "lib_GetFloatHour", "lib_FloatHourToHMS", "lib_toUint8", "lib_HMS_IsValid", "lib_Date_IsValid", "interval_Less", "interval_GetPointList", "interval_GetIntervalList", "interval_Normalize", "interval_Humanize", "interval_IntervalListByNumList", "interval_intersectionOfSomeIntervalLists_endPoint", "interval_IntersectionOfSomeIntervalLists", "interval_Intersection", "stack_Push", "stack_Pop", "julian_IsLeap", "julian_getYearDays", "julian_getMonthDayFromYdays", "julian_ToJd", "julian_JdTo", "julian_GetMonthLen", "jalali_IsLeap", "jalali_getMonthDayFromYdays", "jalali_ToJd", "jalali_JdTo", "jalali_GetMonthLen", "ethiopian_IsLeap", "ethiopian_ToJd", "ethiopian_JdTo", "ethiopian_GetMonthLen", "gprol_IsLeap", "gprol_ToJd", "gprol_JdTo", "gprol_GetMonthLen", "indian_IsLeap", "indian_ToJd", "indian_JdTo", "indian_GetMonthLen", "hijri_IsLeap", "hijri_ToJd", "hijri_JdTo", "hijri_GetMonthLen"]
+def translated : List String := ["utils_Mod", "utils_Div", "utils_Divmod", "utils_IntMin", "utils_GetHmsBySeconds", "utils_MonthListIsValid", "utils_DayListIsValid", "utils_WeekDayListIsValid", "lib_GetTotalSeconds", "lib_GetFloatHour", "lib_FloatHourToHMS", "lib_toUint8", "lib_HMS_IsValid", "lib_Date_IsValid", "interval_Less", "interval_GetPointList", "interval_GetIntervalList", "interval_Normalize", "interval_Humanize", "interval_Extract", "interval_IntervalListByNumList", "interval_intersectionOfSomeIntervalLists_endPoint", "interval_IntersectionOfSomeIntervalLists", "interval_Intersection", "stack_Push", "stack_Pop", "rules_WeekMonth_IsValid", "julian_IsLeap", "julian_getYearDays", "julian_getMonthDayFromYdays", "julian_ToJd", "julian_JdTo", "julian_GetMonthLen", "jalali_IsLeap", "jalali_getMonthDayFromYdays", "jalali_ToJd", "jalali_JdTo", "jalali_GetMonthLen", "ethiopian_IsLeap", "ethiopian_ToJd", "ethiopian_JdTo", "ethiopian_GetMonthLen", "gprol_IsLeap", "gprol_ToJd", "gprol_JdTo", "gprol_GetMonthLen", "indian_IsLeap", "indian_ToJd", "indian_JdTo", "indian_GetMonthLen", "hijri_IsLeap", "hijri_ToJd", "hijri_JdTo", "hijri_GetMonthLen"]
 
 end Starcal.Gen.Src
